@@ -15,9 +15,11 @@ def _coerce_status(exc: BaseException) -> int | None:
         if isinstance(val, int):
             return val
     # Common pattern in HTTP libraries: args may include status
-    for arg in getattr(exc, "args", ()):
-        if isinstance(arg, int) and 100 <= arg <= 599:
-            return arg
+    args = getattr(exc, "args", ())
+    if isinstance(args, Iterable):
+        for arg in args:
+            if isinstance(arg, int) and 100 <= arg <= 599:
+                return arg
     return None
 
 
